@@ -1145,6 +1145,9 @@ func (in *interp) channelStates() []bool {
 		out = append(out, isClosed(w.ch))
 	}
 	for _, w := range in.iwatches {
+		if w.viaTxn != nil {
+			continue // belongs to an open transaction (elided with it in the C02-B differential)
+		}
 		out = append(out, isClosed(w.ch))
 	}
 	for _, it := range in.iters {
@@ -1654,12 +1657,20 @@ func (in *interp) query(o Op) string {
 		st    *dbState
 		where string
 	)
+	unlockedView := false
 	switch {
 	case o.H < 0 && len(in.ws) > 0:
 		w := in.pickW(-o.H - 1)
 		w.opIdx = append(w.opIdx, in.step)
 		txn, st, where = w.txn, w.st, "inside the write transaction"
 		in.res.class("query_in_wtxn")
+		if !w.locked[t] {
+			// a table the transaction does not hold: it reads the snapshot taken
+			// when the transaction started, whatever was committed since (all of a
+			// later commit or nothing of it: C02; frozen: C01)
+			unlockedView = true
+			in.res.class("query_in_wtxn_on_unheld_table")
+		}
 	case o.H > 0 && len(in.snaps) > 0:
 		s := in.snaps[o.H%len(in.snaps)]
 		txn, st, where = s.txn, s.st, fmt.Sprintf("retained snapshot taken at step %d", s.takenAt)
@@ -1701,6 +1712,9 @@ func (in *interp) query(o Op) string {
 	}
 	got, _ := runQuery(in.tbls[t], txn, q)
 	if msg := ts.expected(q).check(got); msg != "" {
+		if unlockedView && (in.own == "C02" || in.own == "C01") {
+			in.viol(in.own, "open-txn-view", "%s of t%d (not held by it): %v: %s - the transaction's view of a table it does not hold must stay the snapshot taken when it started", where, t, q, msg)
+		}
 		in.viol("C04", "query-"+qNames[q.Kind]+"-"+idxNames[q.Idx], "%s of t%d: %v: %s", where, t, q, msg)
 	}
 	in.res.class("query_" + qNames[q.Kind] + "_" + idxNames[q.Idx])
